@@ -44,21 +44,21 @@ type Up4Gen struct {
 	PeerBase     int // the generator's peers are p<PeerBase+1>..
 	// UsePfd: the application filters are provisioned as PFDs (one application per filter, one description per
 	// direction) when a peer associates, and half of the flows name the application ID instead of carrying the filter
-	UsePfd       bool
-	MinFlows     int  // at least this many flows per session
-	AlwaysQer    bool // every flow has a QER of its own
-	SessionOnly  bool
-	EndMarkers   bool // FAR updates ask for end markers (SNDEM) most of the time
+	UsePfd      bool
+	MinFlows    int  // at least this many flows per session
+	AlwaysQer   bool // every flow has a QER of its own
+	SessionOnly bool
+	EndMarkers  bool // FAR updates ask for end markers (SNDEM) most of the time
 }
 
 type uflow struct {
 	byApp        bool // the PDRs name the provisioned application instead of carrying the filter
 	ul, dl       uint16
 	ulFar, dlFar uint32
-	qer    uint32 // 0 = none
-	flow   int    // index into flows, -1 = no filter
-	prec   uint32
-	q      pfcpx.QER
+	qer          uint32 // 0 = none
+	flow         int    // index into flows, -1 = no filter
+	prec         uint32
+	q            pfcpx.QER
 }
 
 type usess struct {
